@@ -77,6 +77,23 @@ var c08Sources = []string{
 	"package main\n\nimport (\n\t\"cmp\"\n\t\"slices\"\n)\n\ntype Set[T cmp.Ordered] struct{ m map[T]struct{} }\n\nfunc Sorted[T cmp.Ordered](s []T) []T {\n\tslices.Sort(s)\n\treturn s\n}\n",
 }
 
+// c08EmptyImportDecls: gofmt-canonical files with an EMPTY import declaration `import ()` (legal Go,
+// kept verbatim by gofmt, typical of generated code): alone, first, between and after other import
+// declarations (single, grouped, cgo), with a doc comment and a trailing comment on it.  The import
+// manager has nothing to do in such a declaration: the unedited round trip reproduces it.
+var c08EmptyImportDecls = []string{
+	"package a\n\nimport ()\n",
+	"package a\n\nimport ()\n\nvar x = 1\n",
+	"package a\n\nimport ()\n\nimport \"fmt\"\n\nvar _ = fmt.Sprint()\n",
+	"package a\n\nimport \"fmt\"\n\nimport ()\n\nvar _ = fmt.Sprint()\n",
+	"package a\n\nimport \"fmt\"\n\nimport ()\n\nimport (\n\t\"io\"\n\t\"os\"\n)\n\nvar _ = fmt.Sprint(io.EOF, os.Args)\n",
+	"package a\n\n// no imports yet\nimport () // none\n\nfunc f() {}\n",
+	"package a\n\nimport (\n\t\"fmt\"\n\tstr \"strings\"\n)\n\n// generated: reserved for later imports\nimport () // keep\n\nvar b str.Builder\n\nfunc f() { fmt.Println(b.Len()) }\n",
+	"package a\n\n// first\nimport ()\n\nimport _ \"embed\"\n\n/* second */\nimport () /* t */\n\nimport \"os\"\n\nimport ()\n\nvar _ = os.Args\n",
+	"package main\n\n// #include <stdlib.h>\nimport \"C\"\n\nimport ()\n\nimport \"unsafe\"\n\nfunc main() {\n\tC.free(unsafe.Pointer(nil))\n}\n",
+	"package a\n\nimport (\n// nothing\n)\n\nimport \"fmt\"\n\nvar _ = fmt.Sprint()\n",
+}
+
 // every syntactic position a qualified identifier can occupy, each with a package used nowhere
 // else in the file (a position the import scan misses loses its import)
 const c08Positions = `package main
@@ -296,6 +313,7 @@ func c08Check(in c08Input) (key, what string) {
 		return "", "" // dot-imports etc.: the syntax-only resolver refuses (C09)
 	}
 	before := identPaths(f)
+	treeBefore := newTreeDumper().Dump(f)
 	var out string
 	pm := safely(func() {
 		var buf bytes.Buffer
@@ -350,6 +368,10 @@ func c08Check(in c08Input) (key, what string) {
 			k = lk
 		}
 		return k, "unedited decorate + import-managed restore changed the file:\n" + firstDiff(in.Src, out)
+	}
+	// nothing had to be added, removed or renamed: the import manager leaves the tree it was given as it was
+	if treeAfter := newTreeDumper().Dump(f); treeAfter != treeBefore {
+		return "c08-input-mutated", "the unedited import-managed restore reproduced the bytes but changed the dst tree it was given:\n" + firstDiff(treeBefore, treeAfter)
 	}
 	dec2 := decorator.NewDecoratorWithImports(token.NewFileSet(), "example.com/self", goast.WithResolver(guess.WithMap(names)))
 	f2, err := dec2.Parse(out)
@@ -415,6 +437,7 @@ func c08CheckTypes(in c08Input, names map[string]string) (key, what string) {
 			return "c08-cgo-paths", fmt.Sprintf("the file has %d references into the cgo pseudo-package, %d identifiers carry the path \"C\" after decoration", want, got)
 		}
 	}
+	treeBefore := newTreeDumper().Dump(f)
 	var out string
 	pm = safely(func() {
 		var buf bytes.Buffer
@@ -445,6 +468,9 @@ func c08CheckTypes(in c08Input, names map[string]string) (key, what string) {
 		}
 		return k, "unedited decorate (gotypes resolver) + import-managed restore changed the file:\n" + firstDiff(in.Src, out)
 	}
+	if treeAfter := newTreeDumper().Dump(f); treeAfter != treeBefore {
+		return "c08-input-mutated", "the unedited import-managed restore reproduced the bytes but changed the dst tree it was given:\n" + firstDiff(treeBefore, treeAfter)
+	}
 	f2, err, skip, pm := c08TypesDecorate(out)
 	if skip || pm != "" || err != nil {
 		return "c08-redecorate", fmt.Sprintf("the output does not type-check / decorate again: %v %s", err, pm)
@@ -456,7 +482,7 @@ func c08CheckTypes(in c08Input, names map[string]string) (key, what string) {
 }
 
 func c08Prop(c *Ctx) {
-	c.Res.Rule = "hand-written canonical files (aliased, blank, cgo, multi-block, commented specs; qualified identifiers with comments and line breaks around the dot; generic constraints) + canonical $GOROOT/src files with imports, decorated with the goast resolver and restored with guess (seeded with accurate names) and simple resolvers; the hand-written files and a family of cgo files (import of C alone / sharing a block, C.f calls, C.t types in every position, comments around the dot) also type-checked with go/types (FakeImportC, imports from source) and decorated with the gotypes resolver; non-trivial = distinct (file, restorer) that decorates without error"
+	c.Res.Rule = "hand-written canonical files (aliased, blank, cgo, multi-block, commented specs; qualified identifiers with comments and line breaks around the dot; generic constraints) + canonical $GOROOT/src files with imports, decorated with the goast resolver and restored with guess (seeded with accurate names) and simple resolvers; the hand-written files and a family of cgo files (import of C alone / sharing a block, C.f calls, C.t types in every position, comments around the dot) and a family of files with an EMPTY import declaration (alone, first, between, after other import declarations, with doc / trailing comments) also type-checked with go/types (FakeImportC, imports from source) and decorated with the gotypes resolver; the dst tree handed to the restorer is the same before and after; non-trivial = distinct (file, restorer) that decorates without error"
 	srcs := append([]string{}, c08Sources...)
 	// the recorded finding duplicate-path-import
 	srcs = append(srcs, "package a\n\nimport (\n\t\"unsafe\"\n\t_ \"unsafe\"\n)\n\nvar _ = unsafe.Sizeof(0)\n")
@@ -498,12 +524,25 @@ func c08Prop(c *Ctx) {
 			}
 		}
 	}
+	// empty import declarations (after the derived families: the random sample above stays as it was)
+	emptyDecl := map[string]bool{}
+	for _, src := range c08EmptyImportDecls {
+		if !isCanonical(src) {
+			c.Res.Notes = append(c.Res.Notes, "c08EmptyImportDecls: not gofmt-canonical: "+clip(src, 60))
+			continue
+		}
+		srcs = append(srcs, src)
+		emptyDecl[src] = true
+	}
 	for _, src := range srcs {
 		if strings.HasPrefix(src, "package main\n") || strings.HasPrefix(src, "package a\n") {
 			whole[src] = true
 		}
 	}
 	for si, src := range srcs {
+		if emptyDecl[src] {
+			c.Res.hist("c08-empty-import-decl", "file with an empty import declaration")
+		}
 		if whole[src] {
 			// the type-based identifier resolver
 			for _, rk := range []string{"guess", "simple"} {
@@ -523,7 +562,7 @@ func c08Prop(c *Ctx) {
 				}
 			}
 		}
-		if si%2 == 0 {
+		if si%2 == 0 || emptyDecl[src] {
 			in := c08Input{Src: src, Restorer: "guess", Reuse: true}
 			c.Res.Evaluations++
 			c.Res.seen(fmt.Sprint(len(src), "reuse", src[:min(len(src), 60)]))
